@@ -40,7 +40,7 @@ SPECS = [
             "presence": ("iff(Rd(c, j, N) is not None, j >= w)", ["C04", "C09"]),
             "type": ("implies(j >= w, isfloat(Rd(c, j, N)))", ["C04", "C09"]),
             "rounded": ROUNDED,
-            "seed": ("implies(j == w, Abs(num(Rd(c, j, N)) - Sigma(j - period + 1, j + 1, lambda t: num0(Rd(c, t, X))) / period) <= eps + xeps)", ["C04"]),
+            "seed": ("implies(j == w, Abs(num(Rd(c, j, N)) - Sigma(j - period + 1, j + 1, lambda t: num0(Rd(c, t, X))) / period) <= eps + xeps)", ["C04"], {"assume": False}),
             "recurrence": ("implies(j > w, Abs(num(Rd(c, j, N)) - (a * num(Rd(c, j, X)) + (1 - a) * num(Rd(c, j - 1, N)))) <= eps + a * xeps)", ["C04"]),
         },
         variants=[{}, {"input_value": "dotted"}],
